@@ -518,10 +518,19 @@ func TestC02(t *testing.T) {
 				}
 				src = "(matrix." + a + " " + op + " matrix." + b + ").m" + rapid.SampledFrom([]string{".zz.y", "['zz']['y']", ".zz[0]", ".zz == 1", ".a.x"}).Draw(rt, "msuffix")
 			}
+			if rapid.IntRange(0, 5).Draw(rt, "jsoncase") == 0 {
+				// object literals whose keys differ only in letter case, with values of different kinds
+				var kv []string
+				for _, k := range rapid.Permutation([]string{"a", "A", "b", "B", "c"}).Draw(rt, "jkeys")[:rapid.IntRange(2, 4).Draw(rt, "njkeys")] {
+					kv = append(kv, fmt.Sprintf("%q: %s", k, rapid.SampledFrom([]string{"1", `"s"`, `{"x": 1}`, `{"x": "s", "y": 2}`, "[1]", "null", "true"}).Draw(rt, "jval")))
+				}
+				src = "fromJSON('{" + strings.Join(kv, ", ") + "}')" + rapid.SampledFrom([]string{".a.x", ".A.x", ".b[0]", "['a'].x", ".B.y", ".a", ".b == 1", ".c.x"}).Draw(rt, "jsuffix")
+				r.Class("sema-api-repeat/json-keys-differing-in-case")
+			}
 			first := ""
 			r.Eval()
 			r.Class("sema-api-repeat")
-			for i := 0; i < 12; i++ {
+			for i := 0; i < 24; i++ {
 				errs, err := semaCheck(env, src)
 				if err != nil {
 					return
